@@ -93,7 +93,8 @@ CLAIMED.update({
         "text": "Theorems: a fresh instance reads every non-oneof field as its proto3 default and encodes to zero bytes (dump_fresh, induction over the field list); an implicit-presence field "
                 "equal to its default contributes no bytes; a proto3-optional field, a selected oneof member or a wrapper field set to ANY scalar value (default included) is emitted with "
                 "its own tag first; a plain sub-message that equals a fresh instance is emitted exactly when serialized_on_wire is set. 'Set after decoding exactly when the reference reports "
-                "HasField/WhichOneof' is the differential part (reference on the same bytes, full {never, default, non-default} × {constructor, assignment, parse, from_dict} matrix).",
+                "HasField/WhichOneof' is the differential part (reference on the same bytes, full {never, default, non-default} × {constructor, assignment, parse, from_dict} matrix). "
+                "TIED TO THE SOURCE BY TRANSLATION (Props/C06Src): the body of the field loop of Message.dump is re-translated from the Python AST on every run and proved EQUAL to the model's dumpSlot for every field descriptor, flag combination and typed value (guard dynOk, implied by the typing predicates); src_implicit_default_skipped, src_explicit_emitted, src_submsg_emitted_iff_onwire, src_hidden_skipped are the sentences of the property about the code as written.",
         "note": TB + "HasField/WhichOneof agreement is observed against google.protobuf, not proved (the reference cannot be brought into Lean).",
         "technique": "Lean 4 proof (case analysis of the emission decision; induction over the field list) + differential correspondence + reference presence comparison",
         "design_ref": "DESIGN.md §7 C06",
@@ -104,7 +105,8 @@ CLAIMED.update({
                 "selection, serialized_on_wire, unknown fields or any slot that held a value; copy and deepcopy keep class, serialized_on_wire and unknown fields verbatim and re-derive a selection "
                 "satisfying the oneof invariant; a pickle round trip is parse(bytes(m)); for every well-typed value (MsgOk, the decidable domain of C01) copy and deepcopy return a value that is the original "
                 "(copy_is_original: same slots at every level, the constructor re-derives exactly the selection the message has), hence encodes to the same bytes (copy_bytes_faithful) and stays well-typed "
-                "(copy_stays_welltyped); the one premise used beyond typing, 'a selected oneof member is set', is shown sharp by a decided counterexample. Independence of deep copies (aliasing) is checked on the implementation.",
+                "(copy_stays_welltyped); the one premise used beyond typing, 'a selected oneof member is set', is shown sharp by a decided counterexample. Independence of deep copies (aliasing) is checked on the implementation. "
+                "THE ALIASING HALF (Props/C14Heap, BpModel/Heap.lean): over a heap model with object identity (cells msg / list / dict / gcur / bytes; _group_current is its own cell) deepcopy_disjoint, deepcopy_value, deepcopy_independent (every legal mutation sequence through a deep copy leaves the original's abstract value unchanged, and vice versa), pickle_copy_independent, shallow_copy_shares_exactly, with decided witnesses that sharing the gcur cell or mutating _unknown_fields in place breaks independence; tied to the code by a sharing-pattern correspondence (object identity along every path observed with `is`, mutations applied to the real objects and to the model).",
         "note": TB + "PARTIAL: independence of a deep / unpickled copy is aliasing, which a pure functional model cannot exhibit — checked at run time by mutating every mutable path of the copy "
                 "(assigning other oneof members, growing containers, merging unknown fields into the copy) and comparing the original's bytes and presence.",
         "technique": "Lean 4 proof (invariance of the encoder under default materialisation) + lock-step differential correspondence + run-time aliasing check",
